@@ -366,6 +366,14 @@ def _disjoint(e, a, b):
             ne = (op == "Ne" and f[0] == "true") or (op == "Eq" and f[0] == "isfalse")
             if ne and ((_same_ptr(x, a) and _same_ptr(y, b)) or (_same_ptr(x, b) and _same_ptr(y, a))):
                 return True
+    if pa and pb and pa[0] == pb[0] and e.get("n") is not None:
+        # same storage, offsets k1 x size and k2 x size, count = size: distinct whole slots when k1 != k2 is a dominating fact
+        n = as_poly(e["n"])
+        ety = e.get("ety")
+        nbytes = n if ety in BYTE_TYPES else n * Poly.atom(("SIZEOF", ety))
+        q = _divide(as_poly(pb[1]) - as_poly(pa[1]), nbytes)
+        if q is not None and implies(e["facts"], ("ne0", _canon_sign(q))):
+            return True
     if pa is None and pb is None:
         # both opaque and not the same term: parameters of a helper, judged at its callers
         return a != b and not (isinstance(a, tuple) and isinstance(b, tuple) and a[:1] == ("init",) and b[:1] == ("init",))
@@ -374,6 +382,30 @@ def _disjoint(e, a, b):
         # out-parameter supplied by the caller of a safe-contract function (`out must not overlap self`)
         return isinstance(opaque, tuple) and opaque and (opaque[0] == "ptr" or opaque[0] == "param")
     return False
+
+
+def _divide(p, d):
+    """p / d when d is a single monomial dividing every monomial of p exactly, else None"""
+    if len(d.m) != 1:
+        return None
+    (dk, dc), = d.m.items()
+    out = {}
+    for k, v in p.m.items():
+        rest = list(k)
+        for a in dk:
+            if a in rest:
+                rest.remove(a)
+            else:
+                return None
+        if v % dc:
+            return None
+        out[tuple(rest)] = v // dc
+    return Poly(out)
+
+
+def _canon_sign(p):
+    from ..interp import canon_sign
+    return canon_sign(p)
 
 
 def I_entry_unsafe(e):
